@@ -6,6 +6,7 @@ import (
 	"encoding/json"
 	"fmt"
 	"os"
+	"os/exec"
 	"path/filepath"
 	"runtime/debug"
 	"sort"
@@ -304,6 +305,9 @@ func runCheck(id, tier string) int {
 	for k, v := range stats {
 		cov[k] = v
 	}
+	if tier == "thorough" && os.Getenv("VERIF_SELFTEST_CHILD") == "" {
+		cov["detector_selftest"] = selfTest(id)
+	}
 	ev := evidence{PropertyID: id, Tier: tier, Seed: seed, Level: "other", Coverage: cov,
 		Assumptions: append([]string{"verdicts are about the shape of /repo's current source; they decide the named structural clauses, not the full behavioural statement"}, prop.Assumptions...),
 		WallS:       time.Since(t0).Seconds(), Violations: len(bad)}
@@ -358,4 +362,86 @@ func runReplay(path string) int {
 	}
 	fmt.Printf("obligation %s is discharged (or gone) on the current tree\n", r.Obligation.Key)
 	return 0
+}
+
+// selfTest (thorough tier, evidence only): every seeded defect kept under /verif/seeded for this
+// property is applied to a scratch copy of the repository tree (outside /repo and /verif) and the
+// property's quick analysis is run on it in a child process; it must report a violation. The copy
+// is removed immediately. A patch that no longer applies is recorded as stale.
+func selfTest(id string) []map[string]any {
+	var out []map[string]any
+	dirs, _ := filepath.Glob(filepath.Join(verifDir(), "seeded", "*", "meta.json"))
+	sort.Strings(dirs)
+	scratchRoot := os.Getenv("VERIF_SCRATCH")
+	if scratchRoot == "" {
+		scratchRoot = "/var/tmp"
+	}
+	for _, mf := range dirs {
+		b, err := os.ReadFile(mf)
+		if err != nil {
+			continue
+		}
+		var meta struct {
+			Property string `json:"property"`
+			Change   string `json:"change"`
+			Detected bool   `json:"detected_by_check"`
+		}
+		if json.Unmarshal(b, &meta) != nil || meta.Property != id {
+			continue
+		}
+		name := filepath.Base(filepath.Dir(mf))
+		rec := map[string]any{"seed": name, "change": meta.Change, "expected_detected": meta.Detected}
+		scratch, err := os.MkdirTemp(scratchRoot, "verifsa-selftest-")
+		if err != nil {
+			rec["result"] = "error: " + err.Error()
+			out = append(out, rec)
+			continue
+		}
+		func() {
+			defer os.RemoveAll(scratch)
+			repoCopy := filepath.Join(scratch, "repo")
+			vdir := filepath.Join(scratch, "verif")
+			_ = os.MkdirAll(vdir, 0o755)
+			if kb, err := os.ReadFile(filepath.Join(verifDir(), "known_findings.json")); err == nil {
+				_ = os.WriteFile(filepath.Join(vdir, "known_findings.json"), kb, 0o644)
+			}
+			if o, err := exec.Command("rsync", "-a", "--exclude", ".git", "--exclude", ".tmp", repoDir()+"/", repoCopy+"/").CombinedOutput(); err != nil {
+				rec["result"] = "error copying tree: " + string(o)
+				return
+			}
+			pc := exec.Command("patch", "-p1", "--no-backup-if-mismatch", "-s", "-i", filepath.Join(filepath.Dir(mf), "patch.diff"))
+			pc.Dir = repoCopy
+			if o, err := pc.CombinedOutput(); err != nil {
+				rec["result"] = "stale: patch no longer applies (" + strings.TrimSpace(string(o)) + ")"
+				return
+			}
+			cmd := exec.Command(os.Args[0], "check", id, "quick")
+			cmd.Env = append(os.Environ(), "VERIF_REPO="+repoCopy, "VERIF_DIR="+vdir, "VERIF_SELFTEST_CHILD=1")
+			o, _ := cmd.CombinedOutput()
+			code := cmd.ProcessState.ExitCode()
+			var keys []string
+			for _, line := range strings.Split(string(o), "\n") {
+				line = strings.TrimSpace(line)
+				if strings.HasPrefix(line, "VIOLATION ") && !strings.HasPrefix(line, "VIOLATION property=") || strings.HasPrefix(line, "UNDECIDED ") {
+					f := strings.Fields(line)
+					if len(f) > 1 {
+						keys = append(keys, f[1])
+					}
+				}
+			}
+			rec["exit"] = code
+			rec["reported"] = keys
+			switch {
+			case code == 1 && len(keys) > 0:
+				rec["result"] = "detected"
+			case code == 0:
+				rec["result"] = "not detected"
+			default:
+				rec["result"] = fmt.Sprintf("error (exit %d)", code)
+			}
+		}()
+		fmt.Printf("  selftest %s: %v (expected detected=%v)\n", name, rec["result"], meta.Detected)
+		out = append(out, rec)
+	}
+	return out
 }
